@@ -80,6 +80,9 @@ fn run_on<C: DateRoll>(ctx: &mut Ctx, cal: &C, spec: &CalSpec, dates: &[i64], rn
         );
         return;
     }
+    if spec.has_unsorted_holidays() {
+        ctx.class("holiday-list:not-chronological");
+    }
     let probe = Probe::new(cal, PROBE_BUDGET);
     let kind = spec.kind();
     for &z in dates {
@@ -221,6 +224,7 @@ impl Prop for C04 {
         v.push("Act:unchanged:chain0".into());
         v.push("probed-dates".into());
         v.push("calendar:inside-CalType-container".to_string());
+        v.push("holiday-list:not-chronological".to_string());
         v
     }
     fn min_evaluations(&self, tier: Tier) -> u64 {
